@@ -40,15 +40,6 @@
 #define VP_MODE 0
 #endif
 
-/* VP_OPS: decimal digits, most significant = first operation; digit 0..4 fixes
-   that operation (VP_OP_*), 9 leaves it symbolic.  Default: all symbolic. */
-#ifndef VP_OPS
-#define VP_OPS 99999
-#endif
-/* VP_OPSET: bit i set = operation i may be chosen (default: all five) */
-#ifndef VP_OPSET
-#define VP_OPSET 31
-#endif
 
 /* keys and seek targets range over 0..VP_KEYMAX (the merger only compares
    keys, so 2 * entries + 1 values already realise every relative order of
@@ -85,6 +76,22 @@ static ldb_mergeiter_t *vp_mi;
 static int vp_cur;
 static int vp_want_status;
 
+/* VP_OS<k>: set of operations allowed at step k (bit i = VP_OP_* i; 31 = all).
+   Excluded operations are removed from the program of that step. */
+#ifndef VP_OS0
+#define VP_OS0 31
+#endif
+#ifndef VP_OS1
+#define VP_OS1 31
+#endif
+#ifndef VP_OS2
+#define VP_OS2 31
+#endif
+#ifndef VP_OS3
+#define VP_OS3 31
+#endif
+static const int vp_os[8] = { VP_OS0, VP_OS1, VP_OS2, VP_OS3, 31, 31, 31, 31 };
+
 #if VP_MODE == 0
 
 static void
@@ -105,37 +112,35 @@ vp_check(void) {
 }
 
 static void
-vp_apply(int op, const uint8_t *t) {
+vp_apply(int op, int mask, const uint8_t *t) {
   ldb_slice_t target;
 
-  switch (op) {
-    case VP_OP_FIRST:
+  /* mask (a constant per step) removes the excluded operations from the
+     program, not only from the models */
+  if ((mask & (1 << VP_OP_FIRST)) && op == VP_OP_FIRST) {
       ldb_mergeiter_first(vp_mi);
       vp_cur = vp_ref_first(&vp_ref);
-      break;
-    case VP_OP_LAST:
+  } else if ((mask & (1 << VP_OP_LAST)) && op == VP_OP_LAST) {
       ldb_mergeiter_last(vp_mi);
       vp_cur = vp_ref_last(&vp_ref);
-      break;
-    case VP_OP_SEEK:
+  } else if ((mask & (1 << VP_OP_SEEK)) && op == VP_OP_SEEK) {
       target.data = (uint8_t *)t;
       target.size = 1;
       target.alloc = 0;
       ldb_mergeiter_seek(vp_mi, &target);
       vp_cur = vp_ref_seek_ge(&vp_ref, t, 1);
-      break;
-    case VP_OP_NEXT:
+  } else if ((mask & (1 << VP_OP_NEXT)) && op == VP_OP_NEXT) {
       if (vp_cur < 0)
         return; /* REQUIRES: valid */
       ldb_mergeiter_next(vp_mi);
       vp_cur = vp_ref_next(&vp_ref, vp_cur);
-      break;
-    default:
+  } else if ((mask & (1 << VP_OP_PREV)) && op == VP_OP_PREV) {
       if (vp_cur < 0)
         return;
       ldb_mergeiter_prev(vp_mi);
       vp_cur = vp_ref_prev(&vp_ref, vp_cur);
-      break;
+  } else {
+    return;
   }
 
   vp_check();
@@ -215,30 +220,23 @@ harness(void) {
 #if VP_MODE == 0
   {
     int k, op = 0, prev_op = 0;
-    int vp_fixed_op[8];
-    long ops = VP_OPS;
     uint8_t t[1];
-
-    for (k = VP_K - 1; k >= 0; k--) {
-      vp_fixed_op[k] = (int)(ops % 10);
-      ops /= 10;
-    }
 
     /* keys are unique across the children */
     VP_ASSUME(vp_ref_distinct(&vp_ref));
 
     for (k = 0; k < VP_K; k++) {
       prev_op = op;
-      op = vp_fixed_op[k] <= VP_OP_PREV ? vp_fixed_op[k] : vp_u8();
+      op = vp_u8();
       VP_ASSUME(op <= VP_OP_PREV);
-      VP_ASSUME((VP_OPSET >> op) & 1);
+      VP_ASSUME((vp_os[k] >> op) & 1);
       t[0] = vp_u8();
 #if VP_PERM > 0
       VP_ASSUME(t[0] <= 2 * VP_TOTAL + 3);
 #else
       VP_ASSUME(t[0] <= VP_KEYMAX);
 #endif
-      vp_apply(op, t);
+      vp_apply(op, vp_os[k], t);
     }
 
     if (vp_cur >= 0) {
